@@ -201,6 +201,7 @@ where
         members: &mut HashMap<GroupMember<ID>, Access<C>>,
         root_access: Option<Access<C>>,
         mut depth: u32,
+        path: &mut Vec<ID>,
     ) {
         // If we reached max nesting depth exit from the traversal.
         if depth == MAX_NESTED_DEPTH {
@@ -208,8 +209,17 @@ where
         }
         depth += 1;
 
+        // Never enter a group again which we are currently traversing. Nested group cycles can
+        // occur as a result of concurrent operations, following them can't yield any higher
+        // access level but makes the traversal grow exponentially when the cycles branch.
+        if path.contains(&group_id) {
+            return;
+        }
+        path.push(group_id);
+
         let current_states = self.current_state();
         let Some(group_state) = current_states.get(&group_id) else {
+            path.pop();
             return;
         };
 
@@ -247,9 +257,11 @@ where
                 .or_insert_with(|| next_access.clone());
 
             if let GroupMember::Group(id) = member {
-                self.members_inner(id, members, Some(next_access), depth)
+                self.members_inner(id, members, Some(next_access), depth, path)
             }
         }
+
+        path.pop();
     }
 
     /// Get all current individual members of a group.
@@ -286,7 +298,7 @@ where
     /// Set depth to 0 to traverse the full graph.
     pub fn traverse_members(&self, group_id: ID, depth: u32) -> Vec<(GroupMember<ID>, Access<C>)> {
         let mut members = HashMap::new();
-        self.members_inner(group_id, &mut members, None, depth);
+        self.members_inner(group_id, &mut members, None, depth, &mut Vec::new());
         members.into_iter().collect()
     }
 
